@@ -753,10 +753,16 @@ static void call_encrypt (void) { errno = 0; f_encrypt (a_block, a_edflag); r_er
 
 /* ------------------------------------------------------------------ projections */
 static int hlive (void);
+static int log_pc;      /* log the phrase as a byte array too (C03 traces) */
 static void
 emit_ph_s (void)
 {
   if (a_phr) jhex ((const unsigned char *) a_phr, (size_t) a_phrlen); else fprintf (out, "\"\"");
+  if (log_pc && a_phr)
+    {
+      fprintf (out, ",\"pc\":");
+      jstr_codes ((const unsigned char *) a_phr, (size_t) a_phrlen);
+    }
   fprintf (out, ",\"pnull\":%d,\"s\":", a_phr ? 0 : 1);
   if (a_set) jstr_codes ((const unsigned char *) a_set, (size_t) a_setlen); else fprintf (out, "[]");
   fprintf (out, ",\"snull\":%d", a_set ? 0 : 1);
@@ -917,6 +923,8 @@ main (int argc, char **argv)
         }
       else if (!strcmp (cmd, "scan"))
         scan_on = atoi (t0);
+      else if (!strcmp (cmd, "logpc"))
+        log_pc = atoi (t0);
       else if (!strcmp (cmd, "stack"))
         stack_mode = atoi (t0);
       else if (!strcmp (cmd, "fault"))
@@ -1139,7 +1147,19 @@ main (int argc, char **argv)
           a_out = (char *) gbuf + 64;
           int ec0 = ent_calls;
           if (scan_on)
-            nneed = 0;
+            {
+              /* C09: the random bytes crypt_gensalt draws itself must not survive the call.
+                 The interposed entropy stream is deterministic, so the needles are known beforehand. */
+              nneed = 0;
+              if (!a_rb && ent_mode == 0)
+                {
+                  unsigned char pred[24];
+                  for (size_t i = 0; i < sizeof pred; i++)
+                    pred[i] = (unsigned char) (ent_seed * 37 + ent_calls * 101 + i * 7 + 13);
+                  for (size_t i = 0; i + 8 <= sizeof pred; i++)
+                    add_needle (pred + i);
+                }
+            }
           run_call (kind == 0 ? call_gensalt_rn : kind == 1 ? call_gensalt : call_gensalt_ra);
           int guard_ok = 1, touched = 0;
           long lim = a_outsize < 0 ? 0 : a_outsize;
